@@ -159,7 +159,7 @@ pub fn run_shard(check: &dyn Check, a: &WorkerArgs, cur: &CurFile) -> (Ctx, Opti
         let config = Config {
             cases: a.cases.min(u32::MAX as u64) as u32,
             failure_persistence: None,
-            max_shrink_iters: 20_000,
+            max_shrink_iters: 3_000,
             max_shrink_time: 0,
             max_global_rejects: 1 << 30,
             max_local_rejects: 1 << 30,
